@@ -100,7 +100,7 @@ type c07Open struct {
 }
 
 // open = NewStream + first use (write the nonce, read the echo)
-func (w *c07World) open(out *verifh.Out, reqs []int64, nonce int64, first byte, allow bool) c07Open {
+func (w *c07World) open(out *verifh.Out, reqs []int64, nonce int64, first byte, allow, late bool) c07Open {
 	o := c07Open{res: 0, dp: -1, use: -1, h: -1, lp: -1, nonce: nonce}
 	pids := make([]protocol.ID, len(reqs))
 	for i, r := range reqs {
@@ -170,11 +170,127 @@ func (w *c07World) open(out *verifh.Out, reqs []int64, nonce int64, first byte, 
 		s.Reset()
 		return o
 	}
-	o.use = 1
 	o.h = int64(int32(binary.BigEndian.Uint32(e[8:])))
 	o.lp = int64(int32(binary.BigEndian.Uint32(e[12:])))
+	if late && !w.lateExchange(out, s, nonce) {
+		o.use = 0
+		o.h, o.lp = -1, -1
+		s.Reset()
+		return o
+	}
+	o.use = 1
 	o.s = s
 	return o
+}
+
+// lateExchange: the application keeps using the stream after the negotiation
+// is long over (after the hosts' negotiation timeout when that is short): the
+// handler's end writes and the dialer reads, the dialer writes and the
+// handler's end reads; the bytes must arrive unchanged in both directions.
+func (w *c07World) lateExchange(out *verifh.Out, s network.Stream, nonce int64) bool {
+	if w.negto > 0 {
+		time.Sleep(w.negto + 60*time.Millisecond)
+		out.Cover("use.late_exchange.after_negotiation_timeout")
+	}
+	w.mu.Lock()
+	ls := w.heldL[nonce]
+	w.mu.Unlock()
+	if ls == nil {
+		out.Cover("use.late_exchange.failed")
+		return false
+	}
+	var a, b, x [12]byte
+	binary.BigEndian.PutUint64(a[:], uint64(nonce)^0x5a5a5a5a)
+	binary.BigEndian.PutUint64(b[:], uint64(nonce)^0x3c3c3c3c)
+	ok := true
+	if _, err := ls.Write(a[:]); err != nil {
+		ok = false
+		out.Comment("late write by the handler failed: " + err.Error())
+	}
+	if ok {
+		s.SetReadDeadline(time.Now().Add(4 * time.Second))
+		if _, err := io.ReadFull(s, x[:]); err != nil || x != a {
+			ok = false
+		}
+		s.SetReadDeadline(time.Time{})
+	}
+	if ok {
+		if _, err := s.Write(b[:]); err != nil {
+			ok = false
+		}
+	}
+	if ok {
+		ls.SetReadDeadline(time.Now().Add(4 * time.Second))
+		if _, err := io.ReadFull(ls, x[:]); err != nil || x != b {
+			ok = false
+		}
+		ls.SetReadDeadline(time.Time{})
+	}
+	if ok {
+		out.Cover("use.late_exchange.ok")
+	} else {
+		out.Cover("use.late_exchange.failed")
+	}
+	return ok
+}
+
+// reconnect: every stream dies with the connection; a new connection is made
+// below the host (no Host.Connect, so nobody has waited for identify); with
+// wait = 0 the next operation races the new connection's identify exchange
+func (r *c07Run) reconnect(dir, wait int64) {
+	w := r.w
+	for k, sl := range r.slots {
+		sl.d.Reset()
+		delete(r.slots, k)
+	}
+	w.mu.Lock()
+	for n, s := range w.heldL {
+		s.Reset()
+		delete(w.heldL, n)
+	}
+	w.mu.Unlock()
+	r.settle(nil)
+	for _, c := range w.d.Network().ConnsToPeer(w.l.ID()) {
+		c.Close()
+	}
+	poll := func(n int) bool {
+		deadline := time.Now().Add(10 * time.Second)
+		for time.Now().Before(deadline) {
+			if len(w.d.Network().ConnsToPeer(w.l.ID())) == n && len(w.l.Network().ConnsToPeer(w.d.ID())) == n {
+				return true
+			}
+			time.Sleep(200 * time.Microsecond)
+		}
+		return false
+	}
+	if !poll(0) {
+		w.fail("reconnect: old connection did not go away")
+		return
+	}
+	// the listener's identify snapshot follows handler changes through its event bus
+	time.Sleep(3 * time.Millisecond)
+	ctx, cancel := context.WithTimeout(context.Background(), 10*time.Second)
+	defer cancel()
+	var err error
+	if dir == 0 {
+		_, err = w.d.Network().DialPeer(ctx, w.l.ID())
+	} else {
+		_, err = w.l.Network().DialPeer(ctx, w.d.ID())
+	}
+	if err != nil || !poll(1) {
+		w.fail(fmt.Sprintf("reconnect: no new connection: %v", err))
+		return
+	}
+	if wait != 0 {
+		w.identifyWait()
+		r.settle(nil)
+		r.out.Cover("reconnect.identify_awaited")
+	} else {
+		r.out.Cover("reconnect.next_op_races_identify")
+	}
+	r.line = append(r.line, 7, dir, wait)
+	r.line = append(r.line, w.muxObs()...)
+	r.line = append(r.line, w.scopeObs()...)
 }
 
 type c07Slot struct {
@@ -253,7 +369,7 @@ func (r *c07Run) batch(reqs [][]int64, modes []int64, rnd *verifh.Rand) {
 		wg.Add(1)
 		go func(i int) {
 			defer wg.Done()
-			obs[i] = w.open(r.out, reqs[i], nonces[i], firsts[i], modes[i]&1 == 1)
+			obs[i] = w.open(r.out, reqs[i], nonces[i], firsts[i], modes[i]&1 == 1, modes[i]&2 == 2)
 		}(i)
 	}
 	wg.Wait()
